@@ -25,6 +25,8 @@ Ops ==   { [op |-> "set", m |-> m, key |-> k, val |-> v] : m \in MapVars, k \in 
     \cup { [op |-> "copy", m |-> p[1], src |-> p[2]] : p \in { q \in MapVars \X MapVars : q[1] # q[2] } }
     \cup { [op |-> "newk", elems |-> <<Num(0)>>] }
     \cup { [op |-> "mutk"] }
+    \cup { [op |-> "newkj"] }
+    \cup { [op |-> "mutj"] }
 
 vars == <<st, prev, lastop, hist>>
 Init == st = InitState /\ prev = InitState /\ lastop = [op |-> "init"] /\ hist = <<>>
@@ -36,6 +38,8 @@ Next == \E o \in Ops :
           /\ (Emit => PrintT("OUT " \o ToJson(hist')))
 Spec == Init /\ [][Next]_vars
 View == <<st, Len(hist)>>
+\* the design check must see every transition (step invariants read prev and lastop)
+ViewStep == <<st, prev, lastop, Len(hist)>>
 
 InvDict == MapIsDict(st)
 InvKeyCaptured == lastop.op # "init" => KeyCapturedByValue(prev, lastop, st)
